@@ -58,7 +58,7 @@ impl<T> std::fmt::Debug for JoinHandle<T> {
   }
 }
 
-fn spawn_controlled<F, T>(c: Ctx, f: F) -> io::Result<JoinHandle<T>>
+fn spawn_controlled<F, T>(c: Ctx, f: F, name: Option<String>) -> io::Result<JoinHandle<T>>
 where
   F: FnOnce() -> T + Send + 'static,
   T: Send + 'static,
@@ -67,11 +67,14 @@ where
   let exec = c.exec.clone();
   let slot: Slot<T> = Arc::new(std::sync::Mutex::new(None));
   let slot2 = slot.clone();
-  let th = crate::exec::pool_run(Box::new(move || {
-    exec.thread_main(tid, f, move |r| {
-      *slot2.lock().unwrap_or_else(|e| e.into_inner()) = Some(r);
-    })
-  }));
+  let th = crate::exec::pool_run_named(
+    Box::new(move || {
+      exec.thread_main(tid, f, move |r| {
+        *slot2.lock().unwrap_or_else(|e| e.into_inner()) = Some(r);
+      })
+    }),
+    name,
+  );
   // scheduling point after the spawn: the child may run first
   c.exec.sched_point(c.tid, Pending::Point(3));
   Ok(JoinHandle(Inner::Ctl { exec: c.exec, tid, slot, th }))
@@ -83,7 +86,7 @@ where
   T: Send + 'static,
 {
   if let Some(c) = ctx() {
-    spawn_controlled(c, f).unwrap()
+    spawn_controlled(c, f, None).unwrap()
   } else {
     JoinHandle(Inner::Std(std::thread::spawn(f)))
   }
@@ -122,7 +125,8 @@ impl Builder {
     T: Send + 'static,
   {
     if let Some(c) = ctx() {
-      spawn_controlled(c, f)
+      let name = self.name.clone();
+      spawn_controlled(c, f, name)
     } else {
       self.std().spawn(f).map(|h| JoinHandle(Inner::Std(h)))
     }
